@@ -78,15 +78,28 @@ fn codec_tables<A: HC>() -> Value {
 }
 
 fn conversions() -> Value {
-    let dna_iupac: Vec<Value> = Dna::items().map(|d| json!([d.to_bits(), Iupac::from(d).to_bits()])).collect();
-    let dna_text: Vec<Value> = Dna::items().map(|d| json!([d.to_bits(), text::Dna::from(d).to_bits()])).collect();
+    let conv = |f: fn(Dna) -> u8| -> Vec<Value> {
+        Dna::items()
+            .map(|d| match catch_unwind(move || f(d)) {
+                Ok(t) => json!([d.to_bits(), t]),
+                Err(_) => json!([d.to_bits(), 999]),
+            })
+            .collect()
+    };
+    let dna_iupac = conv(|d| Iupac::from(d).to_bits());
+    let dna_text = conv(|d| text::Dna::from(d).to_bits());
     let mut text_dna = vec![];
     for b in 0..=255u8 {
-        let t = text::Dna::unsafe_from_bits(b);
-        text_dna.push(match Dna::try_from(t) {
-            Ok(d) => json!(d.to_bits()),
-            Err(ParseBioError::UnrecognisedBase(x)) => json!(format!("err:{x}")),
-            Err(_) => json!("err:other"),
+        // every step may panic in a changed tree: a panic is part of the function graph, not a crash of the extraction
+        let r = catch_unwind(move || {
+            let t = text::Dna::unsafe_from_bits(b);
+            Dna::try_from(t).map(|d| d.to_bits())
+        });
+        text_dna.push(match r {
+            Ok(Ok(d)) => json!(d),
+            Ok(Err(ParseBioError::UnrecognisedBase(x))) => json!(format!("err:{x}")),
+            Ok(Err(_)) => json!("err:other"),
+            Err(_) => json!("panic"),
         });
     }
     json!({"dna_iupac": dna_iupac, "dna_text": dna_text, "text_dna": text_dna})
